@@ -718,7 +718,8 @@ def _normalize_split_every(split_every, axis):
     identically; the lowering re-applies it idempotently for direct callers."""
     split_every = split_every or config.get("split_every", 16)
     if isinstance(split_every, dict):
-        return {k: split_every.get(k, 2) for k in axis}
+        # a fan-in below 2 never reduces (same floor as the integer form below)
+        return {k: builtins.max(split_every.get(k, 2), 2) for k in axis}
     if isinstance(split_every, Integral):
         n = builtins.max(int(split_every ** (1 / (len(axis) or 1))), 2)
         return dict.fromkeys(axis, n)
